@@ -28,6 +28,26 @@ fn adaptors<T: PartialEq + std::fmt::Debug + Clone + 'static>(what: &str, want: 
     if got != exp { return format!("{}: step_by(2) gives {:?}.., expected {:?}..", what, &got[..got.len().min(4)], &exp[..exp.len().min(4)]); }
     if make().count() != want.len() { return format!("{}: count() gives {}, expected {}", what, make().count(), want.len()); }
     if make().last().as_ref() != want.last() { return format!("{}: last() differs", what); }
+    // part of the stream taken with next(), the rest drained by the internal-iteration consumers (fold, for_each, count, last):
+    // together they are the one stream (state carried from the external to the internal iteration)
+    for n in 1..4usize {
+        let mut it = make();
+        let mut got: Vec<T> = Vec::new();
+        for _ in 0..n { if let Some(x) = it.next() { got.push(x); } }
+        let rest: Vec<T> = it.fold(Vec::new(), |mut v, x| { v.push(x); v });
+        got.extend(rest);
+        if got.as_slice() != want { return format!("{}: {} x next() then fold() gives {:?}.., expected {:?}..", what, n, &got[..got.len().min(6)], &want[..want.len().min(6)]); }
+        let mut it = make();
+        let mut taken = 0usize;
+        for _ in 0..n { if it.next().is_some() { taken += 1; } }
+        let mut rest: Vec<T> = Vec::new();
+        it.by_ref().for_each(|x| rest.push(x));
+        if taken + rest.len() != want.len() || rest.as_slice() != &want[taken..] { return format!("{}: {} x next() then for_each() gives {} more items, expected {}", what, n, rest.len(), want.len() - taken); }
+        let mut it = make();
+        for _ in 0..n { let _ = it.next(); }
+        let c = it.count();
+        if c != want.len().saturating_sub(n) { return format!("{}: {} x next() then count() gives {}, expected {}", what, n, c, want.len().saturating_sub(n)); }
+    }
     let mut it = make();
     let (lo, hi) = it.size_hint();
     if lo > want.len() || hi.map(|h| h < want.len()).unwrap_or(false) { return format!("{}: size_hint() = ({}, {:?}) excludes the real length {}", what, lo, hi, want.len()); }
